@@ -45,6 +45,34 @@ AllQuirks == [wsN : BOOLEAN, we0 : BOOLEAN, weN : BOOLEAN]
 (* ---------------------------------------------------------------- helpers *)
 EmptyEnv == [x \in {} |-> <<>>]
 Bind(env, x, v) == [y \in DOMAIN env \cup {x} |-> IF y = x THEN v ELSE env[y]]
+
+(* Named loops scope the variables bound inside them: `L` holds, per         *)
+(* iteration ("0", "1", ...), the map of the names bound in that iteration   *)
+(* (strings in .s, nested named loops in .l).  A state carries the stack sc  *)
+(* of the named loops it is inside of; a binding goes to the innermost one,  *)
+(* else to the top level (env: strings, lenv: loops).  A back-reference sees *)
+(* the top-level strings only (searchengine.go INSERTVARIABLE / MATCHVAR).   *)
+EmptyIM == [s |-> EmptyEnv, l |-> EmptyEnv]
+ItKey(k) == ToString(k)
+PushScope(st, name) == [st EXCEPT !.sc = Append(@, [name |-> name, it |-> 0, vars |-> (ItKey(0) :> EmptyIM)])]
+NextIter(st) ==
+  LET n == Len(st.sc) top == st.sc[Len(st.sc)]
+  IN [st EXCEPT !.sc[n] = [top EXCEPT !.it = @ + 1, !.vars = (ItKey(top.it + 1) :> EmptyIM) @@ top.vars]]
+BindStr(st, x, v) ==
+  IF st.sc = <<>> THEN [st EXCEPT !.env = Bind(@, x, v)]
+  ELSE LET n == Len(st.sc) key == ItKey(st.sc[Len(st.sc)].it)
+       IN [st EXCEPT !.sc[n].vars[key].s = Bind(@, x, v)]
+BindLoop(st, x, lv) ==
+  IF st.sc = <<>> THEN [st EXCEPT !.lenv = Bind(@, x, lv)]
+  ELSE LET n == Len(st.sc) key == ItKey(st.sc[Len(st.sc)].it)
+       IN [st EXCEPT !.sc[n].vars[key].l = Bind(@, x, lv)]
+PopScope(st) ==
+  LET top == st.sc[Len(st.sc)]
+  IN BindLoop([st EXCEPT !.sc = SubSeq(@, 1, Len(@) - 1)], top.name, top.vars)
+RECURSIVE FlatIM(_), FlatLoop(_)
+FlatIM(im) == [x \in DOMAIN im.s \cup DOMAIN im.l |-> IF x \in DOMAIN im.l THEN FlatLoop(im.l[x]) ELSE im.s[x]]
+FlatLoop(lv) == [k \in DOMAIN lv |-> FlatIM(lv[k])]
+VarsOf(st) == FlatIM([s |-> st.env, l |-> st.lenv])
 Adv(st, k) == [st EXCEPT !.pos = @ + k]
 N(cx) == Len(cx.t)
 
@@ -129,7 +157,7 @@ MaxItemWidth(items) == MaxOf({ItemWidth(items[i]) : i \in 1..Len(items)})
 PredEnv(m) == [x \in {"match", "matchLength"} |-> IF x = "match" THEN VS(m) ELSE VN(Len(m))]
 
 (* ------------------------------------------------------------------ Paths *)
-RECURSIVE Paths(_, _, _), SeqPaths(_, _, _, _), Opt(_, _, _, _), Mand(_, _, _, _), CallPaths(_, _, _)
+RECURSIVE Paths(_, _, _), SeqPaths(_, _, _, _), Opt(_, _, _, _), Mand(_, _, _, _), CallPaths(_, _, _), NOpt(_, _, _, _)
 
 Item(cx, it, st) ==
   CASE it.k = "lit" -> LitPaths(cx, it, st)
@@ -149,11 +177,10 @@ Paths(cx, e, st) ==
          ELSE IF \E i \in 1..Len(e.items) : Item(cx, e.items[i], st) # <<>> THEN <<>>
          ELSE LET m == MaxItemWidth(e.items)
               IN IF st.pos + m <= N(cx) THEN <<Adv(st, m)>> ELSE <<>>
-    [] e.k = "loop"  -> Mand(cx, e, e.min, st)
+    [] e.k = "loop"  -> IF e.name = "" THEN Mand(cx, e, e.min, st) ELSE NOpt(cx, e, 0, PushScope(st, e.name))
     [] e.k = "cap"   ->
          LET P == Paths(cx, e.body, st)
-         IN [i \in 1..Len(P) |->
-               [P[i] EXCEPT !.env = Bind(P[i].env, e.name, Slice(cx.t, st.pos, P[i].pos))]]
+         IN [i \in 1..Len(P) |-> BindStr(P[i], e.name, Slice(cx.t, st.pos, P[i].pos))]
     [] e.k = "sub"   -> CallPaths(cx, e.name, st)          \* defining occurrence runs in place
     [] e.k = "ref"   ->
          IF cx.D[e.name].kind = "cap"
@@ -184,6 +211,17 @@ Opt(cx, e, k, st) ==
                      IF P[j].pos > st.pos THEN Opt(cx, e, k + 1, P[j]) ELSE <<>>])
   IN IF e.few THEN <<st>> \o more ELSE more \o <<st>>
 
+(* a named loop is not unrolled: k iterations done; an iteration that        *)
+(* consumed nothing is discarded on re-entry, also among the mandatory ones; *)
+(* leaving the loop hands its per-iteration maps to the enclosing scope      *)
+NOpt(cx, e, k, st) ==
+  LET within == e.max = -1 \/ k <= e.max
+      P    == IF k < e.min \/ within THEN Paths(cx, e.body, st) ELSE <<>>
+      more == Cat([j \in 1..Len(P) |-> IF P[j].pos > st.pos THEN NOpt(cx, e, k + 1, NextIter(P[j])) ELSE <<>>])
+  IN IF k < e.min THEN more
+     ELSE IF within THEN (IF e.few THEN <<PopScope(st)>> \o more ELSE more \o <<PopScope(st)>>)
+     ELSE <<>>
+
 (* a subroutine / global pattern: its body, then its predicate with `match` *)
 (* = the text this invocation consumed                                      *)
 CallPaths(cx, name, st) ==
@@ -196,15 +234,15 @@ CallPaths(cx, name, st) ==
           IN Cat(keep)
 
 (* ------------------------------------------------------------- FindAll    *)
-St0(from) == [pos |-> from, env |-> EmptyEnv]
+St0(from) == [pos |-> from, env |-> EmptyEnv, lenv |-> EmptyEnv, sc |-> <<>>]
 
 Attempt(cx, body, from) ==
   LET P == SeqPaths(cx, body, 1, St0(from)) IN
-  IF P = <<>> THEN [ok |-> FALSE, pos |-> from, env |-> EmptyEnv]
-  ELSE [ok |-> TRUE, pos |-> P[1].pos, env |-> P[1].env]
+  IF P = <<>> THEN [ok |-> FALSE, pos |-> from, env |-> EmptyEnv, vars |-> EmptyEnv]
+  ELSE [ok |-> TRUE, pos |-> P[1].pos, env |-> P[1].env, vars |-> VarsOf(P[1])]
 
-MkMatch(cx, s, e, n, env) ==
-  [s |-> s, e |-> e, n |-> n, vars |-> env,
+MkMatch(cx, s, e, n, env, vars) ==
+  [s |-> s, e |-> e, n |-> n, vars |-> vars, svars |-> env,       \* svars: the top-level string bindings
    ls |-> LineOf(cx.t, s), le |-> LineOf(cx.t, e),
    cs |-> ColOf(cx.t, s),  ce |-> ColOf(cx.t, e)]
 
@@ -213,7 +251,7 @@ Scan(cx, body, from, n, acc) ==
   IF from >= N(cx) THEN acc
   ELSE LET a == Attempt(cx, body, from)
        IN IF a.ok /\ a.pos > from
-          THEN Scan(cx, body, a.pos, n + 1, Append(acc, MkMatch(cx, from, a.pos, n + 1, a.env)))
+          THEN Scan(cx, body, a.pos, n + 1, Append(acc, MkMatch(cx, from, a.pos, n + 1, a.env, a.vars)))
           ELSE Scan(cx, body, from + 1, n, acc)
 
 FindAll(cx, body) == Scan(cx, body, 0, 0, <<>>)
